@@ -90,6 +90,11 @@ TABLE = {
             "Held on the generated (text, encoding, label/BOM, fragmentation, capacity) cases apart from two listed known findings that live in the third-party transcoding crates: the event log over the encoded input equals the log over its reference UTF-8 transcoding.",
             "Reference transcoder: own WHATWG UTF-16 decoder, encoding_rs one-shot for windows-1252 / shift_jis.",
             "DESIGN.md §3 C17"),
+    "C19": (True, "exploration",
+            "runtime differential monitoring: rg -r / -o -r / context / --column / -U --passthru output vs regex::bytes::Regex::replace_all and Captures::expand computed per line by the harness (which links the same regex crate version)",
+            "Held on the generated (pattern with groups, template, input, flags) cases apart from one listed known finding (braced references with odd names): replaced lines, per-match expansions, untouched non-matching lines, columns and the multi-line whole-input replacement agree with the library.",
+            "regex 1.10.6 is the specification. Under -U, matches that swallow the terminator ending their block and an empty match after the final terminator are outside what whole-input replace_all can express and are not compared.",
+            "DESIGN.md §3 C19"),
 }
 
 PENDING_REASON = "check under construction in this round; not claimed yet (see DESIGN.md for the planned monitor)"
